@@ -1,44 +1,57 @@
 (* C04 — "unfreezing / unpausing restores the earlier behaviour": the part that is a theorem.
 
-   [SR s u]: the shard states s and u hold the same accounts, and their storage differs at most
-     - in token cells (keys P ++ x) of accounts other than the system account, where both cells are encodings of
-       the same token up to the Properties bytes, and the two Properties agree on [frozen_props] and [all_zero];
-     - in cells of the system account, as long as the pause flag read from them ([paused_val]) is the same.
-   freeze_unfreeze_SR / pause_unpause_SR: the state after freeze ; unfreeze (resp. pause ; unpause) is SR-related to the
-   state before (entry not frozen before and with all-zero Properties; token not paused before).
-   props_irrelevance_partial: from SR-related states, under no_faults and when the system account is not a party,
-   the FUNGIBLE balance functions — ESDTTransfer (both sides), ESDTLocalMint, ESDTLocalBurn, ESDTBurn — return the same
-   status (Ok / the same error / panic), the same output, and SR-related states; SR-related states have the same
-   balances and flags (SR_observables).
-   NOT covered (hence `_partial`): the other 19 functions.  For the NFT transfers the statement would be false as
-   it stands: the forwarded payload contains the Properties bytes, and its length enters the data-copy gas guard. *)
+   [SR s u]: the shard states s and u hold the same accounts, every cell whose key is not a token key (P ++ x)
+   is equal, and the token cells differ at most
+     - in accounts other than the system account, where both cells decode to the same token up to the Properties
+       bytes, and the two Properties agree on [frozen_props] and [all_zero];
+     - in the system account, as long as the pause flag read from the cell ([paused_val]) is the same.
+   freeze_unfreeze_SR / pause_unpause_SR: the state after freeze ; unfreeze (resp. pause ; unpause) is SR-related to
+   the state before (entry not frozen before, all-zero Properties, non-zero value; token not paused before).
+   SR_observables: SR-related states have the same balances, frozen flags and pause flags.
+   props_irrelevance_partial: from SR-related states, under no_faults and when the system account is not a party
+   of the call, EVERY built-in function except the SENDER side of ESDTNFTTransfer / MultiESDTNFTTransfer returns
+   the same status (Ok / the same error / panic), the same output, and SR-related post-states — so the
+   statement iterates along any later history of such calls.
+   NOT covered (hence `_partial`): the sender side of the two NFT transfers.  There the statement is false as it
+   stands: the forwarded payload is the marshalled entry INCLUDING its Properties bytes ([] before, [0;0] after
+   freeze ; unfreeze), so the output differs, and its length enters the data-copy gas guard. *)
 From EV Require Import Base.Bytes Base.Store Base.Monad gen.Consts Codec.Types Helpers.Helpers
   Ledger.Types Ledger.Env Ledger.Funcs Ledger.Transfers LedgerProofs.Defs LedgerProofs.EnvSpec
   LedgerProofs.Spec_Transfers_Base LedgerProofs.Spec_System LedgerProofs.C04_Core LedgerProofs.C04_Toggle.
 
 Definition peq (p q : bytes) : Prop := frozen_props p = frozen_props q /\ all_zero p = all_zero q.
-(* u is t up to its Properties, which agree on the two predicates; both well-formed *)
-Definition tokrel (t u : token) : Prop :=
-  wf_token t /\ wf_token u /\ u = set_props t (t_props u) /\ peq (t_props t) (t_props u).
-Lemma tokrel_refl t : wf_token t -> tokrel t t.
-Proof. intros H. split; [exact H|]. split; [exact H|]. split; [destruct t; reflexivity|split; reflexivity]. Qed.
-Lemma tokrel_set_value t u v : tokrel t u -> tokrel (set_value t v) (set_value u v).
-Proof.
-  intros (W1 & W2 & Hu & Hp). split; [exact W1|]. split; [exact W2|]. split; [|exact Hp].
-  rewrite Hu at 1. reflexivity.
-Qed.
 
 Section Sim.
   Variable E : env.
   Hypothesis Hc : codec_ok (cdc E).
   Hypothesis Hnf : no_faults E.
+  (* strict = true: only entries WITHOUT metadata (fungible entries) may differ in their Properties *)
+  Variable strict : bool.
+
+  (* u is t up to its Properties, which agree on the two predicates; both well-formed *)
+  Definition tokrel (t u : token) : Prop :=
+    wf_token t /\ wf_token u /\ u = set_props t (t_props u)
+    /\ frozen_props (t_props t) = frozen_props (t_props u) /\ all_zero (t_props t) = all_zero (t_props u)
+    /\ (strict = true -> t_meta t <> None -> t = u).
+  Lemma tokrel_refl t : wf_token t -> tokrel t t.
+  Proof.
+    intros H. split; [exact H|]. split; [exact H|]. split; [destruct t; reflexivity|]. repeat split.
+  Qed.
+  Lemma tokrel_set_value t u v : tokrel t u -> tokrel (set_value t v) (set_value u v).
+  Proof.
+    intros (W1 & W2 & Hu & Hf & Hz & Hm). split; [exact W1|]. split; [exact W2|].
+    split; [rewrite Hu at 1; reflexivity|]. split; [exact Hf|]. split; [exact Hz|].
+    intros Hs Hne. rewrite (Hm Hs Hne). reflexivity.
+  Qed.
+  Lemma tokrel_strict t u : tokrel t u -> strict = true -> t_meta t <> None -> t = u.
+  Proof. intros (_ & _ & _ & _ & _ & Hm). exact Hm. Qed.
 
   Definition ceq (b c : bytes) : Prop :=
-    b = c \/ exists t u, tokrel t u /\ b = enc_tok (cdc E) t /\ c = enc_tok (cdc E) u.
+    b = c \/ (b <> [] /\ c <> [] /\ exists t u, dec_tok (cdc E) b = Some t /\ dec_tok (cdc E) c = Some u /\ tokrel t u).
   Definition SR (s u : mstate) : Prop :=
     (forall a, acct_fields_eq (acct s a) (acct u a))
     /\ (forall a k, a <> SYS -> ceq (cell s a k) (cell u a k))
-    /\ (forall a k, a <> SYS -> prefix_of P k = false -> cell s a k = cell u a k)
+    /\ (forall a k, prefix_of P k = false -> cell s a k = cell u a k)
     /\ (forall k, paused_val (cell s SYS k) = paused_val (cell u SYS k)).
 
   Lemma ceq_refl b : ceq b b. Proof. left. reflexivity. Qed.
@@ -49,37 +62,38 @@ Section Sim.
     intros Hs Hu (F & C1 & C2 & C3).
     split; [intros a; rewrite (acct_accts _ _ a Hs), (acct_accts _ _ a Hu); apply F|].
     split; [intros a k Ha; rewrite (cell_accts _ _ a k Hs), (cell_accts _ _ a k Hu); apply C1; exact Ha|].
-    split; [intros a k Ha Hk; rewrite (cell_accts _ _ a k Hs), (cell_accts _ _ a k Hu); apply C2; assumption|].
+    split; [intros a k Hk; rewrite (cell_accts _ _ a k Hs), (cell_accts _ _ a k Hu); apply C2; assumption|].
     intros k. rewrite (cell_accts _ _ SYS k Hs), (cell_accts _ _ SYS k Hu). apply C3.
   Qed.
 
   (* related cells decode alike *)
   Lemma ceq_nil b c : ceq b c -> (b = [] <-> c = []).
+  Proof. intros [->|(Hb & Hc' & _)]; tauto. Qed.
+  Lemma ceq_enc t u : tokrel t u -> ceq (enc_tok (cdc E) t) (enc_tok (cdc E) u).
   Proof.
-    intros [->|(t & u & _ & -> & ->)]; [tauto|].
-    split; intros H; exfalso; eapply (enc_tok_nonempty _ Hc); eauto.
+    intros R. pose proof R as (W1 & W2 & _). right.
+    split; [apply (enc_tok_nonempty _ Hc)|]. split; [apply (enc_tok_nonempty _ Hc)|].
+    exists t, u. rewrite (dec_enc_tok _ Hc _ W1), (dec_enc_tok _ Hc _ W2). auto.
   Qed.
-  Lemma ceq_bal b c : ceq b c -> bal_of_bytes E b = bal_of_bytes E c.
-  Proof.
-    intros [->|(t & u & (W1 & W2 & Hu & _) & -> & ->)]; [reflexivity|]. unfold bal_of_bytes.
-    destruct (enc_tok (cdc E) t) eqn:E1; [exfalso; eapply (enc_tok_nonempty _ Hc); eauto|]. rewrite <- E1.
-    destruct (enc_tok (cdc E) u) eqn:E2; [exfalso; eapply (enc_tok_nonempty _ Hc); eauto|]. rewrite <- E2.
-    rewrite (dec_enc_tok _ Hc _ W1), (dec_enc_tok _ Hc _ W2). rewrite Hu. reflexivity.
-  Qed.
+  Definition tokd (b : bytes) : option token := match b with [] => None | c => dec_tok (cdc E) c end.
+  Lemma tok_at_tokd s a k : tok_at E s a k = tokd (cell s a k).
+  Proof. unfold tok_at, tokd. destruct (cell s a k); reflexivity. Qed.
   Lemma ceq_tok b c : ceq b c ->
-    match (match b with [] => None | _ => dec_tok (cdc E) b end), (match c with [] => None | _ => dec_tok (cdc E) c end) with
+    match tokd b, tokd c with
     | Some t, Some u => tokrel t u
     | None, None => True
     | _, _ => False
     end.
   Proof.
-    intros [->|(t & u & R & -> & ->)].
-    - destruct c; [exact I|]. destruct (dec_tok (cdc E) (b :: c)) eqn:Ed; [|exact I].
+    intros [->|(Hb & Hc' & t & u & D1 & D2 & R)].
+    - destruct c; [exact I|]. cbn [tokd]. destruct (dec_tok (cdc E) (b :: c)) eqn:Ed; [|exact I].
       apply tokrel_refl. eapply (dec_tok_wf _ Hc); eauto.
-    - destruct R as (W1 & W2 & R).
-      destruct (enc_tok (cdc E) t) eqn:E1; [exfalso; eapply (enc_tok_nonempty _ Hc); eauto|]. rewrite <- E1.
-      destruct (enc_tok (cdc E) u) eqn:E2; [exfalso; eapply (enc_tok_nonempty _ Hc); eauto|]. rewrite <- E2.
-      rewrite (dec_enc_tok _ Hc _ W1), (dec_enc_tok _ Hc _ W2). split; [exact W1|split; [exact W2|exact R]].
+    - destruct b; [contradiction|]. destruct c; [contradiction|]. cbn [tokd]. rewrite D1, D2. exact R.
+  Qed.
+  Lemma ceq_bal b c : ceq b c -> bal_of_bytes E b = bal_of_bytes E c.
+  Proof.
+    intros [->|(Hb & Hc' & t & u & D1 & D2 & (_ & _ & Hu & _))]; [reflexivity|]. unfold bal_of_bytes.
+    destruct b; [contradiction|]. destruct c; [contradiction|]. rewrite D1, D2, Hu. reflexivity.
   Qed.
 
   (* SR-related states agree on every observable of the property *)
@@ -90,10 +104,8 @@ Section Sim.
   Proof.
     intros (_ & C1 & _ & C3). split; [|split].
     - intros a k Ha. apply ceq_bal. apply C1. exact Ha.
-    - intros a k Ha. unfold frozen_at, tok_at. pose proof (ceq_tok _ _ (C1 a k Ha)) as H.
-      destruct (match cell s a k with [] => None | _ => dec_tok (cdc E) (cell s a k) end) as [t|];
-        destruct (match cell u a k with [] => None | _ => dec_tok (cdc E) (cell u a k) end) as [t'|];
-        try contradiction; [|reflexivity].
+    - intros a k Ha. unfold frozen_at. rewrite !tok_at_tokd. pose proof (ceq_tok _ _ (C1 a k Ha)) as H.
+      destruct (tokd (cell s a k)) as [t|]; destruct (tokd (cell u a k)) as [t'|]; try contradiction; [|reflexivity].
       destruct H as (_ & _ & _ & Hp & _). exact Hp.
     - intros k. apply C3.
   Qed.
@@ -168,35 +180,79 @@ Section Sim.
   Qed.
   Lemma sim_retrieve a k : a <> SYS -> sim ceq (retrieve a k) (retrieve a k).
   Proof. intros Ha s u Hs. unfold rrel, retrieve. cbn [fst snd]. split; [apply Hs; exact Ha|exact Hs]. Qed.
-  Lemma sim_retrieve_eq a k : a <> SYS -> prefix_of P k = false -> sim eq (retrieve a k) (retrieve a k).
+  Lemma sim_retrieve_eq a k : prefix_of P k = false -> sim eq (retrieve a k) (retrieve a k).
   Proof.
-    intros Ha Hk s u Hs. unfold rrel, retrieve. cbn [fst snd]. split; [|exact Hs].
-    destruct Hs as (_ & _ & C2 & _). apply (C2 a k Ha Hk).
+    intros Hk s u Hs. unfold rrel, retrieve. cbn [fst snd]. split; [|exact Hs].
+    destruct Hs as (_ & _ & C2 & _). apply (C2 a k Hk).
   Qed.
   Lemma sim_is_paused key : sim eq (is_paused key) (is_paused key).
   Proof.
     intros s u Hs. unfold rrel, is_paused, bind, retrieve, ret. cbn [fst snd]. split; [|exact Hs].
     destruct Hs as (_ & _ & _ & C3). apply C3.
   Qed.
-  (* writing related values into a token cell of an ordinary account *)
-  Lemma sim_save_kv a x v v' : a <> SYS -> ceq v v' -> sim eq (save_kv E a (P ++ x) v) (save_kv E a (P ++ x) v').
+  (* one write; the three side conditions say that the written values are related the way SR demands *)
+  Lemma sim_save_kv_gen a k v v' :
+    (a = SYS -> paused_val v = paused_val v') ->
+    (a <> SYS -> ceq v v') ->
+    (prefix_of P k = false -> v = v') ->
+    sim eq (save_kv E a k v) (save_kv E a k v').
   Proof.
-    intros Ha Hv s u Hs.
-    destruct (save_kv_succeeds E a (P ++ x) v s (Hnf _)) as (s1 & H1).
-    destruct (save_kv_succeeds E a (P ++ x) v' u (Hnf _)) as (u1 & H2).
+    intros Hsys Hv Hnp s u Hs.
+    destruct (save_kv_succeeds E a k v s (Hnf _)) as (s1 & H1).
+    destruct (save_kv_succeeds E a k v' u (Hnf _)) as (u1 & H2).
     unfold rrel. rewrite H1, H2. cbn [fst snd]. split; [reflexivity|].
     apply save_kv_ok in H1. apply save_kv_ok in H2. destruct Hs as (F & C1 & C2 & C3).
     split; [|split; [|split]].
     - intros a'. eapply acct_fields_eq_trans; [apply (wr_fields E _ _ _ _ _ a' H1)|].
       eapply acct_fields_eq_trans; [apply F|]. apply acct_fields_eq_sym. apply (wr_fields E _ _ _ _ _ a' H2).
-    - intros a' k Ha'. rewrite (wr_cell E _ _ _ _ _ a' k H1), (wr_cell E _ _ _ _ _ a' k H2).
-      destruct (beqb a' a && beqb k (P ++ x))%bool; [exact Hv|apply C1; exact Ha'].
-    - intros a' k Ha' Hk. rewrite (wr_cell E _ _ _ _ _ a' k H1), (wr_cell E _ _ _ _ _ a' k H2).
+    - intros a' k' Ha'. rewrite (wr_cell E _ _ _ _ _ a' k' H1), (wr_cell E _ _ _ _ _ a' k' H2).
+      destruct (beqb_spec a' a) as [->|Hn]; [|apply C1; exact Ha']. cbn [andb].
+      destruct (beqb k' k); [apply Hv; exact Ha'|apply C1; exact Ha'].
+    - intros a' k' Hk. rewrite (wr_cell E _ _ _ _ _ a' k' H1), (wr_cell E _ _ _ _ _ a' k' H2).
       destruct (beqb_spec a' a) as [->|Hn]; [|apply C2; assumption]. cbn [andb].
-      destruct (beqb_spec k (P ++ x)) as [->|Hn]; [|apply C2; assumption].
-      rewrite prefix_of_app in Hk. discriminate.
-    - intros k. rewrite (wr_cell E _ _ _ _ _ SYS k H1), (wr_cell E _ _ _ _ _ SYS k H2).
-      destruct (beqb_spec SYS a) as [Heq|Hn]; [exfalso; apply Ha; symmetry; exact Heq|]. cbn [andb]. apply C3.
+      destruct (beqb_spec k' k) as [->|Hn]; [apply Hnp; exact Hk|apply C2; assumption].
+    - intros k'. rewrite (wr_cell E _ _ _ _ _ SYS k' H1), (wr_cell E _ _ _ _ _ SYS k' H2).
+      destruct (beqb_spec SYS a) as [Heq|Hn]; [|apply C3]. cbn [andb].
+      destruct (beqb k' k); [apply Hsys; symmetry; exact Heq|apply C3].
+  Qed.
+  (* related values into a token cell of an ordinary account *)
+  Lemma sim_save_kv a x v v' : a <> SYS -> ceq v v' -> sim eq (save_kv E a (P ++ x) v) (save_kv E a (P ++ x) v').
+  Proof.
+    intros Ha Hv. apply sim_save_kv_gen; [intros; contradiction|intros; exact Hv|].
+    rewrite prefix_of_app. discriminate.
+  Qed.
+  (* the same value anywhere *)
+  Lemma sim_save_kv_same a k v : sim eq (save_kv E a k v) (save_kv E a k v).
+  Proof. apply sim_save_kv_gen; [reflexivity|intros; apply ceq_refl|reflexivity]. Qed.
+  Lemma sim_alloc n : sim eq (alloc n) (alloc n).
+  Proof.
+    intros s u Hs. unfold rrel, alloc. destruct (1099511627776 <? n)%N; cbn [fst snd]; [exact I|].
+    split; [reflexivity|]. eapply SR_accts; [| |exact Hs]; reflexivity.
+  Qed.
+  (* account fields *)
+  Lemma sim_get_acct a : sim acct_fields_eq (get_acct a) (get_acct a).
+  Proof. intros s u Hs. unfold rrel, get_acct. cbn [fst snd]. split; [apply Hs|exact Hs]. Qed.
+  Lemma sim_upd_acct a (f f' : account -> account) :
+    (forall x, a_store (f x) = a_store x) -> (forall x, a_store (f' x) = a_store x) ->
+    (forall x y, acct_fields_eq x y -> acct_fields_eq (f x) (f' y)) ->
+    sim eq (upd_acct a f) (upd_acct a f').
+  Proof.
+    intros Hst Hst' Hf s u Hs. unfold rrel.
+    destruct (upd_acct a f s) as [r1 s1] eqn:E1. destruct (upd_acct a f' u) as [r2 u1] eqn:E2.
+    assert (r1 = Ok tt) by (unfold upd_acct in E1; inversion E1; reflexivity).
+    assert (r2 = Ok tt) by (unfold upd_acct in E2; inversion E2; reflexivity). subst r1 r2. cbn [fst snd].
+    split; [reflexivity|].
+    assert (A1 : forall a', acct s1 a' = if beqb a' a then f (acct s a) else acct s a') by (intros; eapply upd_acct_acct; eauto).
+    assert (A2 : forall a', acct u1 a' = if beqb a' a then f' (acct u a) else acct u a') by (intros; eapply upd_acct_acct; eauto).
+    assert (Cs : forall a' k, cell s1 a' k = cell s a' k).
+    { intros a' k. unfold cell. rewrite A1. destruct (beqb_spec a' a) as [->|]; [rewrite Hst|]; reflexivity. }
+    assert (Cu : forall a' k, cell u1 a' k = cell u a' k).
+    { intros a' k. unfold cell. rewrite A2. destruct (beqb_spec a' a) as [->|]; [rewrite Hst'|]; reflexivity. }
+    destruct Hs as (F & C1 & C2 & C3). split; [|split; [|split]].
+    - intros a'. rewrite A1, A2. destruct (beqb a' a); [apply Hf|]; apply F.
+    - intros a' k Ha'. rewrite Cs, Cu. apply C1. exact Ha'.
+    - intros a' k Hk. rewrite Cs, Cu. apply C2. exact Hk.
+    - intros k. rewrite Cs, Cu. apply C3.
   Qed.
 
   (* ---------------- helpers ---------------- *)
@@ -206,7 +262,7 @@ Section Sim.
     intros b c Hbc. pose proof (ceq_tok _ _ Hbc) as Ht. pose proof (ceq_nil _ _ Hbc) as Hn.
     destruct b as [|b0 b]; destruct c as [|c0 c]; try (exfalso; destruct Hn as [H1 H2]; first [discriminate (H1 eq_refl)|discriminate (H2 eq_refl)]).
     - intros s u Hs. unfold rrel, ret. cbn [fst snd]. split; [apply tokrel_refl, wf_default_tok|exact Hs].
-    - unfold unmarshal_tok. eapply sim_bind; [apply sim_dep|]. intros _ _ _.
+    - cbn [tokd] in Ht. unfold unmarshal_tok. eapply sim_bind; [apply sim_dep|]. intros _ _ _.
       destruct (dec_tok (cdc E) (b0 :: b)) as [t|]; destruct (dec_tok (cdc E) (c0 :: c)) as [t'|]; try contradiction.
       + intros s u Hs. unfold rrel, lift_opt, ret. cbn [fst snd]. split; [exact Ht|exact Hs].
       + intros s u Hs. unfold rrel, lift_opt, fail. cbn [fst snd]. reflexivity.
@@ -224,15 +280,15 @@ Section Sim.
   Lemma sim_save_esdt_data a t u x : a <> SYS -> tokrel t u ->
     sim eq (save_esdt_data E a t (P ++ x)) (save_esdt_data E a u (P ++ x)).
   Proof.
-    intros Ha R. destruct (tokrel_value _ _ R) as [Hv _]. pose proof R as (W1 & W2 & Hu & _ & Hz).
+    intros Ha R. destruct (tokrel_value _ _ R) as [Hv _]. pose proof R as (W1 & W2 & Hu & _ & Hz & _).
     unfold save_esdt_data, val_of. rewrite Hv.
     eapply sim_bind; [apply sim_stateless; sl|]. intros v _ <-. rewrite Hz.
     destruct ((v =? 0)%Z && all_zero (t_props u))%bool.
     - apply sim_save_kv; [exact Ha|apply ceq_refl].
-    - unfold marshal_tok. eapply sim_bind.
+    - unfold marshal_tok. eapply (sim_bind (fun b c => b = enc_tok (cdc E) t /\ c = enc_tok (cdc E) u)).
       + eapply sim_bind; [apply sim_dep|]. intros _ _ _ s0 u0 Hs. unfold rrel, ret. cbn [fst snd].
-        split; [|exact Hs]. exact (conj (eq_refl (enc_tok (cdc E) t)) (eq_refl (enc_tok (cdc E) u))).
-      + intros b c [-> ->]. apply sim_save_kv; [exact Ha|]. right. exists t, u. auto.
+        split; [|exact Hs]. split; reflexivity.
+      + intros b c [-> ->]. apply sim_save_kv; [exact Ha|]. apply ceq_enc. exact R.
   Qed.
   Lemma sim_add_to_esdt_balance a x delta rae : a <> SYS ->
     sim eq (add_to_esdt_balance E a (P ++ x) delta rae) (add_to_esdt_balance E a (P ++ x) delta rae).
@@ -240,10 +296,10 @@ Section Sim.
     intros Ha. unfold add_to_esdt_balance.
     eapply sim_bind; [apply sim_get_esdt_data; exact Ha|]. intros t u R.
     destruct (tokrel_value _ _ R) as [Hv Hty]. rewrite Hty.
-    apply sim_bind_eq; [apply sim_stateless; sl|]. intros _.
+    eapply sim_bind; [apply sim_stateless; sl|]. intros _ _ _.
     eapply sim_bind; [apply sim_check_froze_and_pause; exact R|]. intros _ _ _.
-    unfold val_of. rewrite Hv. apply sim_bind_eq; [apply sim_stateless; sl|]. intros v.
-    apply sim_bind_eq; [apply sim_stateless; sl|]. intros _.
+    unfold val_of. rewrite Hv. eapply sim_bind; [apply sim_stateless; sl|]. intros v _ <-.
+    eapply sim_bind; [apply sim_stateless; sl|]. intros _ _ _.
     apply sim_save_esdt_data; [exact Ha|]. apply tokrel_set_value. exact R.
   Qed.
   Lemma RP_not_P tok : prefix_of P (RP ++ tok) = false.
@@ -253,7 +309,7 @@ Section Sim.
   Proof.
     intros Ha. unfold check_allowed. apply sim_bind_eq; [apply sim_stateless; sl|]. intros _.
     apply sim_bind_eq.
-    - unfold get_roles. apply sim_bind_eq; [apply sim_retrieve_eq; [exact Ha|apply RP_not_P]|]. intros b.
+    - unfold get_roles. apply sim_bind_eq; [apply sim_retrieve_eq; apply RP_not_P|]. intros b.
       destruct b; [apply sim_stateless; sl|]. unfold unmarshal_rol.
       apply sim_bind_eq; [apply sim_bind_eq; [apply sim_dep|]; intros _; apply sim_stateless; unfold lift_opt; destruct (dec_rol _ _); sl|].
       intros r. apply sim_stateless. sl.
@@ -320,15 +376,370 @@ Section Sim.
     intros _. destruct (i_dst i); [|apply sim_stateless; sl].
     apply sim_bind_eq; [apply sim_check_payable|]. intros _.
     apply sim_bind_eq; [apply sim_add_to_esdt_balance; auto|]. intros _.
-    apply sim_stateless. sl. destruct (_ <? _)%N; sl.
+    apply sim_stateless. sl.
   Qed.
 
-  (* through the dispatch *)
+  (* ---------------- automation for runs of eq-related binds ---------------- *)
+  Lemma NP_not_P tok : prefix_of P (NP ++ tok) = false.
+  Proof. vm_compute. reflexivity. Qed.
+  Lemma sim_ret_eq {A} (x : A) : sim eq (ret x : MT A) (ret x).
+  Proof. apply sim_stateless. sl. Qed.
+  Lemma sim_bind_ret {A B} (VR : B -> B -> Prop) (x x' : A) (f f' : A -> MT B) :
+    sim VR (f x) (f' x') -> sim VR (bind (ret x) f) (bind (ret x') f').
+  Proof. intros H s u Hs. exact (H s u Hs). Qed.
+  Lemma sim_marshal_tok t u :
+    sim (fun b c => b = enc_tok (cdc E) t /\ c = enc_tok (cdc E) u) (marshal_tok E t) (marshal_tok E u).
+  Proof.
+    unfold marshal_tok. eapply sim_bind; [apply sim_dep|]. intros _ _ _ s0 u0 Hs. unfold rrel, ret. cbn [fst snd].
+    split; [|exact Hs]. split; reflexivity.
+  Qed.
+  Lemma sim_unmarshal_tok_same b : sim (fun t u => t = u /\ wf_token t) (unmarshal_tok E b) (unmarshal_tok E b).
+  Proof.
+    unfold unmarshal_tok. eapply sim_bind; [apply sim_dep|]. intros _ _ _ s0 u0 Hs. unfold rrel, lift_opt.
+    destruct (dec_tok (cdc E) b) eqn:Ed; unfold ret, fail; cbn [fst snd]; [|reflexivity].
+    split; [|exact Hs]. split; [reflexivity|]. eapply (dec_tok_wf _ Hc); eauto.
+  Qed.
+  Lemma sim_get_latest_nonce a tok : sim eq (get_latest_nonce a tok) (get_latest_nonce a tok).
+  Proof.
+    unfold get_latest_nonce. apply sim_bind_eq; [apply sim_retrieve_eq, NP_not_P|]. intros b.
+    destruct b; apply sim_ret_eq.
+  Qed.
+  Lemma sim_save_latest_nonce a tok n : sim eq (save_latest_nonce E a tok n) (save_latest_nonce E a tok n).
+  Proof. apply sim_save_kv_same. Qed.
+  Lemma sim_get_roles a tok : sim eq (get_roles E a (RP ++ tok)) (get_roles E a (RP ++ tok)).
+  Proof.
+    unfold get_roles. apply sim_bind_eq; [apply sim_retrieve_eq, RP_not_P|]. intros b.
+    destruct b; [apply sim_ret_eq|]. unfold unmarshal_rol.
+    apply sim_bind_eq; [|intros r; apply sim_ret_eq].
+    apply sim_bind_eq; [apply sim_dep|]. intros _. apply sim_stateless. unfold lift_opt. destruct (dec_rol _ _); sl.
+  Qed.
+  Lemma sim_save_roles a k r : sim eq (save_roles E a k r) (save_roles E a k r).
+  Proof.
+    unfold save_roles, marshal_rol. apply sim_bind_eq; [|intros b; apply sim_save_kv_same].
+    apply sim_bind_eq; [apply sim_dep|]. intros _. apply sim_ret_eq.
+  Qed.
+  Lemma sim_load_account a : sim eq (load_account E a) (load_account E a). Proof. apply sim_dep. Qed.
+  Lemma sim_save_account a : sim eq (save_account E a) (save_account E a). Proof. apply sim_dep. Qed.
+
+  Ltac simleaf :=
+    first [ apply sim_stateless; solve [sl]
+          | apply sim_dep | apply sim_load_account | apply sim_save_account | apply sim_alloc
+          | apply sim_check_payable | apply sim_is_paused
+          | apply sim_get_latest_nonce | apply sim_save_latest_nonce | apply sim_get_roles | apply sim_save_roles
+          | apply sim_save_kv_same
+          | apply sim_check_allowed; solve [auto]
+          | apply sim_add_to_esdt_balance; solve [auto] ].
+  Ltac sb := apply sim_bind_eq; [simleaf|intros ?].
+
+  (* ---------------- NFT helpers ---------------- *)
+  Definition tokrel2 (p q : token * bool) : Prop := tokrel (fst p) (fst q) /\ snd p = snd q.
+  Lemma sim_get_nft_on_destination a key nonce : a <> SYS ->
+    sim tokrel2 (get_nft_on_destination E a key nonce) (get_nft_on_destination E a key nonce).
+  Proof.
+    intros Ha. unfold get_nft_on_destination. eapply sim_bind; [apply (sim_retrieve a _ Ha)|].
+    intros b c Hbc. pose proof (ceq_tok _ _ Hbc) as Ht. pose proof (ceq_nil _ _ Hbc) as Hn.
+    destruct b as [|b0 b]; destruct c as [|c0 c];
+      try (exfalso; destruct Hn as [H1 H2]; first [discriminate (H1 eq_refl)|discriminate (H2 eq_refl)]).
+    - intros s u Hs. unfold rrel, ret. cbn [fst snd]. split; [|exact Hs].
+      split; [apply tokrel_refl, wf_default_tok|reflexivity].
+    - cbn [tokd] in Ht. eapply (sim_bind tokrel).
+      + unfold unmarshal_tok. eapply sim_bind; [apply sim_dep|]. intros _ _ _.
+        destruct (dec_tok (cdc E) (b0 :: b)) as [t|]; destruct (dec_tok (cdc E) (c0 :: c)) as [t'|]; try contradiction.
+        * intros s u Hs. unfold rrel, lift_opt, ret. cbn [fst snd]. split; [exact Ht|exact Hs].
+        * intros s u Hs. unfold rrel, lift_opt, fail. cbn [fst snd]. reflexivity.
+      + intros t u R s0 u0 Hs. unfold rrel, ret. cbn [fst snd]. split; [|exact Hs]. split; [exact R|reflexivity].
+  Qed.
+  Lemma tokrel_meta t u : tokrel t u -> t_meta u = t_meta t.
+  Proof. intros (_ & _ & -> & _). reflexivity. Qed.
+  Lemma sim_get_nft_on_sender a key nonce : a <> SYS ->
+    sim tokrel (get_nft_on_sender E a key nonce) (get_nft_on_sender E a key nonce).
+  Proof.
+    intros Ha. unfold get_nft_on_sender. eapply sim_bind; [apply sim_get_nft_on_destination; exact Ha|].
+    intros [t n] [u n'] [R Hn]. cbn [fst snd] in R, Hn. subst n'. rewrite (tokrel_meta _ _ R).
+    eapply sim_bind; [apply sim_stateless; sl|]. intros _ _ _.
+    eapply sim_bind; [apply sim_stateless; sl|]. intros _ _ _.
+    eapply sim_bind; [apply sim_stateless; sl|]. intros _ _ _.
+    intros s0 u0 Hs. unfold rrel, ret. cbn [fst snd]. split; assumption.
+  Qed.
+  Lemma sim_save_nft a x t u rae : a <> SYS -> tokrel t u ->
+    sim (fun b c => t = u -> b = c) (save_nft E a (P ++ x) t rae) (save_nft E a (P ++ x) u rae).
+  Proof.
+    intros Ha R. pose proof R as (W1 & W2 & Hu & Hp). destruct (tokrel_value _ _ R) as [Hv _].
+    assert (Hn : tok_nonce u = tok_nonce t) by (rewrite Hu; reflexivity).
+    unfold save_nft. cbv zeta. rewrite Hn.
+    eapply sim_bind; [apply sim_check_froze_and_pause; exact R|]. intros _ _ _.
+    eapply sim_bind; [apply sim_check_froze_and_pause; exact R|]. intros _ _ _.
+    unfold val_of. rewrite Hv. eapply sim_bind; [apply sim_stateless; sl|]. intros v _ <-.
+    rewrite nft_key_app. destruct (v <=? 0)%Z.
+    - eapply sim_bind; [apply sim_save_kv; [exact Ha|apply ceq_refl]|]. intros _ _ _.
+      intros s0 u0 Hs. unfold rrel, ret. cbn [fst snd]. split; [reflexivity|exact Hs].
+    - eapply sim_bind; [apply sim_marshal_tok|]. intros b c [-> ->].
+      eapply sim_bind; [apply sim_save_kv; [exact Ha|apply ceq_enc; exact R]|]. intros _ _ _.
+      intros s0 u0 Hs. unfold rrel, ret. cbn [fst snd]. split; [intros ->; reflexivity|exact Hs].
+  Qed.
+  Lemma sim_save_nft_same a x t rae : a <> SYS -> wf_token t ->
+    sim eq (save_nft E a (P ++ x) t rae) (save_nft E a (P ++ x) t rae).
+  Proof.
+    intros Ha W. eapply sim_weaken; [|apply sim_save_nft; [exact Ha|apply tokrel_refl; exact W]].
+    intros b c H. apply H. reflexivity.
+  Qed.
+  Lemma sim_add_nft_to_destination dst x t verify rae : dst <> SYS -> wf_token t ->
+    sim eq (add_nft_to_destination E dst (P ++ x) t verify rae) (add_nft_to_destination E dst (P ++ x) t verify rae).
+  Proof.
+    intros Ha Wt. unfold add_nft_to_destination. sb.
+    eapply sim_bind; [apply sim_get_nft_on_destination; exact Ha|].
+    intros [cur n] [cur' n'] [R Hn]. cbn [fst snd] in R, Hn. subst n'.
+    eapply sim_bind; [apply sim_check_froze_and_pause; exact R|]. intros _ _ _.
+    rewrite (tokrel_meta _ _ R). unfold val_of. rewrite (proj1 (tokrel_value _ _ R)).
+    apply sim_bind_eq.
+    { destruct (t_meta cur); [|apply sim_ret_eq]. apply sim_stateless. unfold lift_opt. destruct (t_meta t); sl. }
+    intros _. sb. sb.
+    apply sim_bind_eq; [apply sim_save_nft_same; [exact Ha|apply wf_set_value; exact Wt]|]. intros _. apply sim_ret_eq.
+  Qed.
+  Lemma tokrel_set_meta t u m : tokrel t u -> t_meta t <> None -> wf_metadata m ->
+    tokrel (set_meta t (Some m)) (set_meta u (Some m)).
+  Proof.
+    intros (W1 & W2 & Hu & Hf & Hz & Hm) Hne Wm. destruct W1 as [T1 _]. destruct W2 as [T2 _].
+    split; [split; [exact T1|exact Wm]|]. split; [split; [exact T2|exact Wm]|].
+    split; [rewrite Hu at 1; reflexivity|]. split; [exact Hf|]. split; [exact Hz|].
+    intros Hs _. rewrite (Hm Hs Hne). reflexivity.
+  Qed.
+  Lemma wf_meta_tok t m : wf_token t -> t_meta t = Some m -> wf_metadata m.
+  Proof. intros [_ H] Hm. rewrite Hm in H. exact H. Qed.
+
+  (* ---------------- the NFT supply functions ---------------- *)
+  Lemma stateless_check_create_burn_add i cost : stateless (check_create_burn_add i cost).
+  Proof. unfold check_create_burn_add. sl. Qed.
+  Lemma sim_nft_create i : i_caller i <> SYS -> sim eq (f_nft_create E i) (f_nft_create E i).
+  Proof.
+    intros Ha. unfold f_nft_create. cbv zeta.
+    apply sim_bind_eq; [apply sim_stateless, stateless_check_create_burn_add|]. intros _.
+    repeat sb.
+    apply sim_bind_eq; [destruct (1 <? bigZ _)%Z; [apply sim_check_allowed; exact Ha|apply sim_ret_eq]|]. intros _.
+    repeat sb.
+    apply sim_bind_eq.
+    { apply sim_save_nft_same; [exact Ha|]. split; [vm_compute; reflexivity|].
+      cbn [t_meta]. split; cbn [md_nonce md_royalties]; [apply u64_lt|apply LedgerProofs.Spec_Supply.u32_lt]. }
+    intros b. sb. apply sim_ret_eq.
+  Qed.
+  (* the four functions that rewrite an existing NFT entry: lookup, then save a modified copy *)
+  Lemma sim_nft_add_quantity i : i_caller i <> SYS -> sim eq (f_nft_add_quantity E i) (f_nft_add_quantity E i).
+  Proof.
+    intros Ha. unfold f_nft_add_quantity. cbv zeta.
+    apply sim_bind_eq; [apply sim_stateless, stateless_check_create_burn_add|]. intros _.
+    repeat sb.
+    eapply sim_bind; [apply sim_get_nft_on_sender; exact Ha|]. intros t u R.
+    unfold val_of. rewrite (proj1 (tokrel_value _ _ R)).
+    eapply sim_bind; [apply sim_stateless; sl|]. intros v _ <-.
+    eapply sim_bind; [apply sim_stateless; sl|]. intros a2 _ <-.
+    eapply sim_bind; [apply sim_save_nft; [exact Ha|apply tokrel_set_value; exact R]|]. intros _ _ _.
+    apply sim_ret_eq.
+  Qed.
+  Lemma sim_nft_burn i : i_caller i <> SYS -> sim eq (f_nft_burn E i) (f_nft_burn E i).
+  Proof.
+    intros Ha. unfold f_nft_burn. cbv zeta.
+    apply sim_bind_eq; [apply sim_stateless, stateless_check_create_burn_add|]. intros _.
+    repeat sb.
+    eapply sim_bind; [apply sim_get_nft_on_sender; exact Ha|]. intros t u R.
+    unfold val_of. rewrite (proj1 (tokrel_value _ _ R)).
+    eapply sim_bind; [apply sim_stateless; sl|]. intros v _ <-.
+    eapply sim_bind; [apply sim_stateless; sl|]. intros a2 _ <-.
+    eapply sim_bind; [apply sim_stateless; sl|]. intros _ _ _.
+    eapply sim_bind; [apply sim_save_nft; [exact Ha|apply tokrel_set_value; exact R]|]. intros _ _ _.
+    apply sim_ret_eq.
+  Qed.
+  Lemma sim_nft_add_uri i : i_caller i <> SYS -> sim eq (f_nft_add_uri E i) (f_nft_add_uri E i).
+  Proof.
+    intros Ha. unfold f_nft_add_uri. cbv zeta.
+    apply sim_bind_eq; [apply sim_stateless, stateless_check_create_burn_add|]. intros _.
+    repeat sb.
+    eapply sim_bind; [apply sim_get_nft_on_sender; exact Ha|]. intros t u R.
+    unfold meta_of. rewrite (tokrel_meta _ _ R). destruct (t_meta t) as [md|] eqn:Em; [|apply sim_stateless; sl].
+    cbn [opt_or_panic]. apply sim_bind_ret.
+    eapply sim_bind; [apply sim_save_nft; [exact Ha|]|].
+    { apply tokrel_set_meta; [exact R|rewrite Em; discriminate|]. destruct R as (W1 & _). exact (wf_meta_tok _ _ W1 Em). }
+    intros _ _ _. apply sim_ret_eq.
+  Qed.
+  Lemma sim_nft_update_attributes i : i_caller i <> SYS ->
+    sim eq (f_nft_update_attributes E i) (f_nft_update_attributes E i).
+  Proof.
+    intros Ha. unfold f_nft_update_attributes. cbv zeta.
+    apply sim_bind_eq; [apply sim_stateless, stateless_check_create_burn_add|]. intros _.
+    repeat sb.
+    eapply sim_bind; [apply sim_get_nft_on_sender; exact Ha|]. intros t u R.
+    unfold meta_of. rewrite (tokrel_meta _ _ R). destruct (t_meta t) as [md|] eqn:Em; [|apply sim_stateless; sl].
+    cbn [opt_or_panic]. apply sim_bind_ret.
+    eapply sim_bind; [apply sim_save_nft; [exact Ha|]|].
+    { apply tokrel_set_meta; [exact R|rewrite Em; discriminate|]. destruct R as (W1 & _). exact (wf_meta_tok _ _ W1 Em). }
+    intros _ _ _. apply sim_ret_eq.
+  Qed.
+
+  (* ---------------- system-contract functions ---------------- *)
+  Lemma stateless_check_system_one_arg i : stateless (check_system_one_arg i).
+  Proof. unfold check_system_one_arg. sl. Qed.
+  Lemma sim_freeze_wipe fz wp i : i_rcpt i <> SYS -> sim eq (f_freeze_wipe E fz wp i) (f_freeze_wipe E fz wp i).
+  Proof.
+    intros Ha. unfold f_freeze_wipe.
+    apply sim_bind_eq; [apply sim_stateless, stateless_check_system_one_arg|]. intros _.
+    repeat sb. cbv zeta.
+    eapply sim_bind; [apply sim_get_esdt_data; exact Ha|]. intros t u R.
+    pose proof R as (W1 & W2 & Hu & Hp & _). destruct wp.
+    - rewrite <- Hp. eapply sim_bind; [apply sim_stateless; sl|]. intros _ _ _.
+      eapply sim_bind; [apply sim_save_kv; [exact Ha|apply ceq_refl]|]. intros _ _ _. apply sim_ret_eq.
+    - eapply sim_bind; [apply sim_save_esdt_data; [exact Ha|]|intros _ _ _; apply sim_ret_eq].
+      assert (Hs : set_props u (flag_bytes fz) = set_props t (flag_bytes fz)) by (rewrite Hu; reflexivity).
+      rewrite Hs. apply tokrel_refl. apply wf_set_props. exact W1.
+  Qed.
+  Lemma sim_pause p i : sim eq (f_pause E p i) (f_pause E p i).
+  Proof.
+    unfold f_pause. apply sim_bind_eq; [apply sim_stateless, stateless_check_system_one_arg|]. intros _.
+    repeat sb. apply sim_ret_eq.
+  Qed.
+  Lemma sim_roles set i : sim eq (f_roles E set i) (f_roles E set i).
+  Proof.
+    unfold f_roles. cbv zeta. repeat sb.
+    match goal with x : (roles * bool)%type |- _ => destruct x as [r isNew] end. repeat sb. apply sim_ret_eq.
+  Qed.
+  Lemma sim_delete_create_role a tok : sim eq (delete_create_role E a (RP ++ tok)) (delete_create_role E a (RP ++ tok)).
+  Proof. unfold delete_create_role. sb. destruct x as [r isNew]. simleaf. Qed.
+  Lemma sim_add_create_role a tok : sim eq (add_create_role E a (RP ++ tok)) (add_create_role E a (RP ++ tok)).
+  Proof. unfold add_create_role. sb. destruct x as [r isNew]. destruct (bytes_in _ r); simleaf. Qed.
+  Lemma sim_create_role_transfer i : sim eq (f_create_role_transfer E i) (f_create_role_transfer E i).
+  Proof.
+    unfold f_create_role_transfer. cbv zeta. repeat sb. destruct (beqb (i_caller i) SC).
+    - repeat sb. apply sim_bind_eq; [apply sim_delete_create_role|]. intros _.
+      apply sim_bind_eq; [|intros _; apply sim_ret_eq].
+      destruct (shard_of E _ =? self_shard E)%N; [|apply sim_ret_eq].
+      repeat sb. apply sim_bind_eq; [apply sim_add_create_role|]. intros _. simleaf.
+    - repeat sb. apply sim_bind_eq; [apply sim_add_create_role|]. intros _. apply sim_ret_eq.
+  Qed.
+
+  (* ---------------- account-level functions ---------------- *)
+  Lemma sim_change_owner i : sim eq (f_change_owner E i) (f_change_owner E i).
+  Proof.
+    unfold f_change_owner. cbv zeta. repeat sb. destruct (negb (i_dst i)); [apply sim_ret_eq|].
+    eapply sim_bind; [apply sim_get_acct|]. intros d d' (_ & Ho & _ & _). rewrite Ho.
+    eapply sim_bind; [apply sim_stateless; sl|]. intros _ _ _.
+    eapply sim_bind; [apply sim_dep|]. intros _ _ _.
+    eapply sim_bind; [|intros _ _ _; apply sim_ret_eq].
+    apply sim_upd_acct; [reflexivity|reflexivity|]. intros xa ya (Hb & _ & Hu & Hr). repeat split; assumption.
+  Qed.
+  Lemma sim_claim_rewards i : sim eq (f_claim_rewards E i) (f_claim_rewards E i).
+  Proof.
+    unfold f_claim_rewards. cbv zeta. repeat sb. destruct (negb (i_dst i)); [apply sim_ret_eq|].
+    eapply sim_bind; [apply sim_get_acct|]. intros d d' (_ & Ho & _ & Hr). rewrite Ho, Hr.
+    eapply sim_bind; [apply sim_stateless; sl|]. intros _ _ _.
+    eapply sim_bind; [apply sim_stateless; sl|]. intros _ _ _.
+    eapply sim_bind; [apply sim_dep|]. intros _ _ _.
+    eapply sim_bind.
+    { apply sim_upd_acct; [reflexivity|reflexivity|]. intros xa ya (Hb & Hw & Hu & _). repeat split; assumption. }
+    intros _ _ _. destruct (negb (i_snd i)); [apply sim_ret_eq|].
+    eapply sim_bind; [apply sim_dep|]. intros _ _ _.
+    eapply sim_bind; [|intros _ _ _; apply sim_ret_eq].
+    apply sim_upd_acct; [reflexivity|reflexivity|]. intros xa ya (Hb & Hw & Hu & Hr'). repeat split; cbn; congruence.
+  Qed.
+  Lemma sim_set_user_name i : sim eq (f_set_user_name E i) (f_set_user_name E i).
+  Proof.
+    unfold f_set_user_name. cbv zeta. repeat sb. destruct (negb (i_dst i)); [apply sim_ret_eq|].
+    eapply sim_bind; [apply sim_get_acct|]. intros d d' (_ & _ & Hu & _). rewrite Hu.
+    eapply sim_bind; [apply sim_stateless; sl|]. intros _ _ _.
+    eapply sim_bind; [|intros _ _ _; apply sim_ret_eq].
+    apply sim_upd_acct; [reflexivity|reflexivity|]. intros xa ya (Hb & Hw & _ & Hr). repeat split; assumption.
+  Qed.
+  Lemma allowed_not_P k : key_allowed k = true -> prefix_of P k = false.
+  Proof.
+    intros H. apply key_allowed_not_protected in H. destruct (prefix_of P k) eqn:Ep; [|reflexivity].
+    apply prefix_of_true in Ep as [r ->]. unfold P in H. rewrite <- app_assoc, prefix_of_app in H. discriminate.
+  Qed.
+  Lemma sim_skv_loop a g : forall pairs use, sim eq (skv_loop E a g pairs use) (skv_loop E a g pairs use).
+  Proof.
+    intros pairs. induction pairs as [| x |k v r IH] using pair_ind; intros use.
+    - apply sim_ret_eq.
+    - apply sim_stateless. sl.
+    - cbn [skv_loop]. cbv zeta. destruct (key_allowed k) eqn:Ek; [|apply sim_stateless; sl].
+      apply sim_bind_eq; [apply sim_stateless; sl|]. intros _.
+      apply sim_bind_eq; [apply sim_retrieve_eq, allowed_not_P; exact Ek|]. intros old.
+      destruct (beqb old v); [apply IH|]. repeat sb. apply IH.
+  Qed.
+  Lemma sim_save_key_value i : sim eq (f_save_key_value E i) (f_save_key_value E i).
+  Proof.
+    unfold f_save_key_value. cbv zeta. repeat sb.
+    apply sim_bind_eq; [apply sim_skv_loop|]. intros use. repeat sb. apply sim_ret_eq.
+  Qed.
+
+  (* ---------------- destination side of the two NFT transfers ---------------- *)
+  Lemma sim_nft_transfer_dest i : i_caller i <> i_rcpt i -> i_rcpt i <> SYS -> sim eq (f_nft_transfer E i) (f_nft_transfer E i).
+  Proof.
+    intros Hne Ha. unfold f_nft_transfer. cbv zeta. repeat sb. rewrite (beqb_false _ _ Hne). repeat sb.
+    eapply sim_bind; [apply sim_unmarshal_tok_same|]. intros t _ [<- Wt].
+    apply sim_bind_eq; [apply sim_add_nft_to_destination; assumption|]. intros _.
+    apply sim_bind_eq.
+    { destruct ((nft_min <? alen (i_args i))%N && is_sc (i_rcpt i))%bool; [|apply sim_ret_eq]. repeat sb. apply sim_ret_eq. }
+    intros o. repeat sb. apply sim_ret_eq.
+  Qed.
+  Lemma sim_multi_dest_loop i minArgs : i_rcpt i <> SYS -> forall fuel idx logs,
+    sim eq (multi_dest_loop E fuel i minArgs idx logs) (multi_dest_loop E fuel i minArgs idx logs).
+  Proof.
+    intros Ha fuel. induction fuel as [|f IH]; intros idx logs; [apply sim_ret_eq|].
+    cbn [multi_dest_loop]. cbv zeta. repeat sb.
+    apply sim_bind_eq; [|intros _; apply IH].
+    destruct (0 <? bigU64 _)%N.
+    - repeat sb. eapply sim_bind; [apply sim_unmarshal_tok_same|]. intros t _ [<- Wt].
+      apply sim_bind_eq; [apply sim_add_nft_to_destination; assumption|]. intros _. apply sim_ret_eq.
+    - repeat sb. simleaf.
+  Qed.
+  Lemma sim_multi_transfer_dest i : i_caller i <> i_rcpt i -> i_rcpt i <> SYS ->
+    sim eq (f_multi_transfer E i) (f_multi_transfer E i).
+  Proof.
+    intros Hne Ha. unfold f_multi_transfer. cbv zeta. repeat sb. rewrite (beqb_false _ _ Hne). repeat sb.
+    apply sim_bind_eq; [apply sim_multi_dest_loop; exact Ha|]. intros logs.
+    destruct ((_ <? alen (i_args i))%N && is_sc (i_rcpt i))%bool; [|apply sim_ret_eq]. repeat sb. apply sim_ret_eq.
+  Qed.
+
+  (* ---------------- through the dispatch ---------------- *)
+  Definition nft_sender_side (f : bytes) (i : input) : Prop :=
+    (f = C.BuiltInFunctionESDTNFTTransfer \/ f = C.BuiltInFunctionMultiESDTNFTTransfer) /\ i_caller i = i_rcpt i.
+  (* the system account is not a party of the call (the pause toggles name a system-account recipient by design) *)
+  Definition sys_not_party (f : bytes) (i : input) : Prop :=
+    f = C.BuiltInFunctionESDTPause \/ f = C.BuiltInFunctionESDTUnPause \/ (i_caller i <> SYS /\ i_rcpt i <> SYS).
+
+  Ltac party Hp :=
+    destruct Hp as [Hp|[Hp|[? ?]]];
+    [exfalso; apply beqb_true in Hp; vm_compute in Hp; discriminate Hp
+    |exfalso; apply beqb_true in Hp; vm_compute in Hp; discriminate Hp|].
+  Lemma sim_exec f i : ~ nft_sender_side f i -> sys_not_party f i -> sim eq (exec E f i) (exec E f i).
+  Proof.
+    intros Hn Hp. unfold exec.
+    destruct (beqb_spec f C.BuiltInFunctionClaimDeveloperRewards) as [->|N01]; [apply sim_claim_rewards|].
+    destruct (beqb_spec f C.BuiltInFunctionChangeOwnerAddress) as [->|N02]; [apply sim_change_owner|].
+    destruct (beqb_spec f C.BuiltInFunctionSetUserName) as [->|N03]; [apply sim_set_user_name|].
+    destruct (beqb_spec f C.BuiltInFunctionSaveKeyValue) as [->|N04]; [apply sim_save_key_value|].
+    destruct (beqb_spec f C.BuiltInFunctionESDTPause) as [->|N05]; [apply sim_pause|].
+    destruct (beqb_spec f C.BuiltInFunctionESDTUnPause) as [->|N06]; [apply sim_pause|].
+    destruct (beqb_spec f C.BuiltInFunctionESDTTransfer) as [->|N07]; [party Hp; apply sim_esdt_transfer; auto|].
+    destruct (beqb_spec f C.BuiltInFunctionESDTBurn) as [->|N08]; [party Hp; apply sim_esdt_burn; auto|].
+    destruct (beqb_spec f C.BuiltInFunctionESDTFreeze) as [->|N09]; [party Hp; apply sim_freeze_wipe; auto|].
+    destruct (beqb_spec f C.BuiltInFunctionESDTUnFreeze) as [->|N10]; [party Hp; apply sim_freeze_wipe; auto|].
+    destruct (beqb_spec f C.BuiltInFunctionESDTWipe) as [->|N11]; [party Hp; apply sim_freeze_wipe; auto|].
+    destruct (beqb_spec f C.BuiltInFunctionUnSetESDTRole) as [->|N12]; [apply sim_roles|].
+    destruct (beqb_spec f C.BuiltInFunctionSetESDTRole) as [->|N13]; [apply sim_roles|].
+    destruct (beqb_spec f C.BuiltInFunctionESDTLocalBurn) as [->|N14]; [party Hp; apply sim_local_burn; auto|].
+    destruct (beqb_spec f C.BuiltInFunctionESDTLocalMint) as [->|N15]; [party Hp; apply sim_local_mint; auto|].
+    destruct (beqb_spec f C.BuiltInFunctionESDTNFTAddQuantity) as [->|N16]; [party Hp; apply sim_nft_add_quantity; auto|].
+    destruct (beqb_spec f C.BuiltInFunctionESDTNFTBurn) as [->|N17]; [party Hp; apply sim_nft_burn; auto|].
+    destruct (beqb_spec f C.BuiltInFunctionESDTNFTCreate) as [->|N18]; [party Hp; apply sim_nft_create; auto|].
+    destruct (beqb_spec f C.BuiltInFunctionESDTNFTTransfer) as [->|N19].
+    { party Hp. apply sim_nft_transfer_dest; [|assumption]. intros Heq. apply Hn. split; auto. }
+    destruct (beqb_spec f C.BuiltInFunctionESDTNFTCreateRoleTransfer) as [->|N20]; [apply sim_create_role_transfer|].
+    destruct (beqb_spec f C.BuiltInFunctionESDTNFTUpdateAttributes) as [->|N21]; [party Hp; apply sim_nft_update_attributes; auto|].
+    destruct (beqb_spec f C.BuiltInFunctionESDTNFTAddURI) as [->|N22]; [party Hp; apply sim_nft_add_uri; auto|].
+    destruct (beqb_spec f C.BuiltInFunctionMultiESDTNFTTransfer) as [->|N23].
+    { party Hp. apply sim_multi_transfer_dest; [|assumption]. intros Heq. apply Hn. split; auto. }
+    apply sim_stateless. sl.
+  Qed.
+
   Theorem props_irrelevance_partial f i s u :
-    SR s u ->
-    In f [C.BuiltInFunctionESDTTransfer; C.BuiltInFunctionESDTLocalMint; C.BuiltInFunctionESDTLocalBurn;
-          C.BuiltInFunctionESDTBurn] ->
-    i_caller i <> SYS -> i_rcpt i <> SYS ->
+    SR s u -> ~ nft_sender_side f i -> sys_not_party f i ->
     match exec E f i s, exec E f i u with
     | (Ok o, s'), (Ok o', u') => o = o' /\ SR s' u'
     | (Err e, _), (Err e', _) => e = e'
@@ -336,50 +747,97 @@ Section Sim.
     | _, _ => False
     end.
   Proof.
-    intros Hs Hin Ha Hb.
-    assert (H : rrel eq (exec E f i s) (exec E f i u)).
-    { cbn [In] in Hin. destruct Hin as [<-|[<-|[<-|[<-|[]]]]].
-      - change (exec E C.BuiltInFunctionESDTTransfer i) with (f_esdt_transfer E i). apply sim_esdt_transfer; auto.
-      - change (exec E C.BuiltInFunctionESDTLocalMint i) with (f_local_mint E i). apply sim_local_mint; auto.
-      - change (exec E C.BuiltInFunctionESDTLocalBurn i) with (f_local_burn E i). apply sim_local_burn; auto.
-      - change (exec E C.BuiltInFunctionESDTBurn i) with (f_esdt_burn E i). apply sim_esdt_burn; auto. }
+    intros Hs Hn Hp. pose proof (sim_exec f i Hn Hp s u Hs) as H.
     unfold rrel in H. destruct (exec E f i s) as [[o|e|] s']; destruct (exec E f i u) as [[o'|e'|] u']; exact H.
   Qed.
 
   (* ---------------- the toggles produce SR-related states ---------------- *)
+  (* the cell written by ESDTFreeze / ESDTUnFreeze *)
+  Lemma freeze_cell f i s o s' :
+    f_freeze_wipe E f false i s = (Ok o, s') ->
+    exists tok t v, i_args i = [tok] /\ tok_or_default E s (i_rcpt i) (P ++ tok) = Some t /\ wf_token t
+      /\ t_value t = Some v
+      /\ cell s' (i_rcpt i) (P ++ tok) =
+         (if ((v =? 0)%Z && negb f)%bool then [] else enc_tok (cdc E) (set_props t (flag_bytes f))).
+  Proof.
+    unfold f_freeze_wipe. intros H.
+    apply bind_ok in H as (u0 & s0 & H0 & H). apply check_system_one_arg_ok in H0 as (Hv & (tok & Ha) & Hcl & ->).
+    apply bind_ok in H as (u1 & s1 & H1 & H). apply guard_ok in H1 as [Hdst ->].
+    rewrite Ha in H. apply bind_ok in H as (tok' & s1 & H1 & H). apply arg_ok in H1 as (Hn & _ & ->).
+    simpl in Hn. inversion Hn; subst tok'. clear Hn. cbv zeta in H.
+    apply bind_ok in H as (t & s1 & H1 & H). apply (get_esdt_data_ok E Hc) in H1 as (Hr & Ht & Hwf).
+    apply bind_ok in H as (u2 & s2 & H2 & H). apply ret_ok in H as [-> <-].
+    apply save_esdt_data_ok in H2 as (v & Hval & Hw). cbn [set_props t_value t_props] in Hval, Hw.
+    rewrite all_zero_flag_bytes in Hw.
+    exists tok, t, v. split; [exact Ha|]. split; [exact Ht|]. split; [exact Hwf|]. split; [exact Hval|].
+    eapply wr_cell_eq; eauto.
+  Qed.
+
   Theorem freeze_unfreeze_SR i1 i2 s o1 s1 o2 s2 :
     exec E C.BuiltInFunctionESDTFreeze i1 s = (Ok o1, s1) ->
     exec E C.BuiltInFunctionESDTUnFreeze i2 s1 = (Ok o2, s2) ->
     i_rcpt i2 = i_rcpt i1 -> i_args i2 = i_args i1 ->
     i_rcpt i1 <> SYS ->
-    (* the entry was not frozen, carried no other Properties bits, and was not an empty-valued leftover *)
+    (* the entry, if present, was not frozen, carried no other Properties bits, and held a non-zero value
+       (and, for the strict relation, it is an entry without metadata: a fungible entry) *)
     (forall t, tok_at E s (i_rcpt i1) (P ++ argn i1 0) = Some t ->
-               frozen_props (t_props t) = false /\ all_zero (t_props t) = true /\ val_or_0 t <> 0%Z) ->
+               frozen_props (t_props t) = false /\ all_zero (t_props t) = true /\ val_or_0 t <> 0%Z
+               /\ (strict = true -> t_meta t = None)) ->
     SR s s2.
   Proof.
     intros H1 H2 Hr Ha Hsys Hent.
-    destruct (freeze_unfreeze_identity E Hc _ _ _ _ _ _ _ H1 H2 Hr Ha) as (_ & _ & _ & T2 & [U1 U2] & _).
+    destruct (freeze_unfreeze_identity E Hc _ _ _ _ _ _ _ H1 H2 Hr Ha) as (_ & _ & _ & _ & [U1 U2] & _).
+    rewrite exec_freeze in H1. rewrite exec_unfreeze in H2.
+    apply freeze_cell in H1 as (tok & t & v & A1 & T1 & W1 & V1 & C1).
+    apply freeze_cell in H2 as (tok2 & t2 & v2 & A2 & T2 & W2 & V2 & C2).
+    rewrite Ha, A1 in A2. inversion A2; subst tok2. rewrite Hr in *. rewrite (argn0_single _ _ A1) in *.
+    rewrite Bool.andb_false_r in C1. rewrite Bool.andb_true_r in C2.
+    (* the entry unfreeze found is the one freeze wrote *)
+    assert (Ht2 : t2 = set_props t (flag_bytes true)).
+    { unfold tok_or_default in T2. rewrite C1 in T2.
+      destruct (enc_tok (cdc E) (set_props t (flag_bytes true))) eqn:Ee; [exfalso; eapply (enc_tok_nonempty _ Hc); eauto|].
+      rewrite <- Ee in T2. rewrite (dec_enc_tok _ Hc _ (wf_set_props _ _ W1)) in T2. inversion T2. reflexivity. }
+    subst t2. cbn [set_props t_value] in V2. rewrite V1 in V2. inversion V2; subst v2. rewrite set_props_set_props in C2.
     split; [intros a; apply acct_fields_eq_sym; apply U2; tauto|].
-    assert (Hcell : forall a k, ~ (a = i_rcpt i1 /\ k = P ++ argn i1 0) -> cell s a k = cell s2 a k)
+    assert (Hcell : forall a k, ~ (a = i_rcpt i1 /\ k = P ++ tok) -> cell s a k = cell s2 a k)
       by (intros a k Hn; symmetry; apply U1; exact Hn).
     split; [|split].
     - intros a k Ha'. destruct (beqb_spec a (i_rcpt i1)) as [->|Hn1]; [|left; apply Hcell; tauto].
-      destruct (beqb_spec k (P ++ argn i1 0)) as [->|Hn2]; [|left; apply Hcell; tauto].
-      destruct (tok_at E s (i_rcpt i1) (P ++ argn i1 0)) as [t|] eqn:Et.
-      + destruct (Hent t eq_refl) as (Hf & Hz & Hv).
-        rewrite (balance_tok_at E _ _ _ _ Et) in T2.
-        destruct (val_or_0 t =? 0)%Z eqn:Ez; [apply Z.eqb_eq in Ez; contradiction|].
-        right. exists t, (set_props t (flag_bytes false)).
-        assert (Wt : wf_token t) by (eapply (tok_at_wf E Hc); eauto).
-        split.
-        { split; [exact Wt|]. split; [apply wf_set_props; exact Wt|]. split; [reflexivity|].
-          cbn [set_props t_props]. split; [rewrite frozen_props_flag_bytes; exact Hf|rewrite all_zero_flag_bytes; exact Hz]. }
-        split.
-        * unfold tok_at in Et. destruct (cell s (i_rcpt i1) (P ++ argn i1 0)) as [|b0 br] eqn:Ec; [discriminate|].
-          rewrite <- Ec in *. admit_placeholder.
-        * admit_placeholder.
-      + admit_placeholder.
-    - intros a k Ha' Hk. apply Hcell. intros [_ ->]. rewrite prefix_of_app in Hk. discriminate.
+      destruct (beqb_spec k (P ++ tok)) as [->|Hn2]; [|left; apply Hcell; tauto].
+      destruct (tod_cases E _ _ _ _ T1) as [(Hnil & -> & _)|(Hne & Hs)].
+      + left. rewrite Hnil, C2. cbn in V1. inversion V1; subst v. reflexivity.
+      + destruct (Hent t Hs) as (Hf & Hz & Hv & Hmt). unfold val_or_0 in Hv. rewrite V1 in Hv.
+        rewrite C2. destruct (v =? 0)%Z eqn:Ez; [apply Z.eqb_eq in Ez; contradiction|].
+        right. split; [exact Hne|]. split; [apply (enc_tok_nonempty _ Hc)|].
+        exists t, (set_props t (flag_bytes false)).
+        split; [apply tok_at_cell in Hs; tauto|]. split; [apply (dec_enc_tok _ Hc); apply wf_set_props; exact W1|].
+        split; [exact W1|]. split; [apply wf_set_props; exact W1|]. split; [reflexivity|].
+        cbn [set_props t_props]. split; [rewrite frozen_props_flag_bytes; exact Hf|].
+        split; [rewrite all_zero_flag_bytes; exact Hz|]. intros Hst Hne. exfalso. apply Hne. apply Hmt. exact Hst.
+    - intros a k Hk. apply Hcell. intros [_ ->]. rewrite prefix_of_app in Hk. discriminate.
     - intros k. f_equal. apply Hcell. intros [Hx _]. apply Hsys. symmetry. exact Hx.
   Qed.
+
+  Theorem pause_unpause_SR i1 i2 s o1 s1 o2 s2 :
+    exec E C.BuiltInFunctionESDTPause i1 s = (Ok o1, s1) ->
+    exec E C.BuiltInFunctionESDTUnPause i2 s1 = (Ok o2, s2) ->
+    i_args i2 = i_args i1 ->
+    paused_at s (P ++ argn i1 0) = false ->
+    SR s s2.
+  Proof.
+    intros H1 H2 Ha Hp.
+    destruct (pause_unpause_identity E _ _ _ _ _ _ _ H1 H2 Ha) as (_ & P2 & _ & [U1 U2] & _).
+    split; [intros a; apply acct_fields_eq_sym; apply U2; tauto|].
+    split; [|split].
+    - intros a k Ha'. left. symmetry. apply U1. intros [Hx _]. contradiction.
+    - intros a k Hk. symmetry. apply U1. intros [_ Hx]. subst k. rewrite prefix_of_app in Hk. discriminate.
+    - intros k. destruct (beqb_spec k (P ++ argn i1 0)) as [->|Hn].
+      + unfold paused_at in Hp, P2. rewrite Hp, P2. reflexivity.
+      + f_equal. symmetry. apply U1. intros [_ Hx]. contradiction.
+  Qed.
 End Sim.
+
+Print Assumptions SR_observables.
+Print Assumptions props_irrelevance_partial.
+Print Assumptions freeze_unfreeze_SR.
+Print Assumptions pause_unpause_SR.
